@@ -375,3 +375,39 @@ def history_dependence(prog, fn):
         for d in carrying:
             res.append((d['name'], 'violated', 'static `%s` carries a value from an earlier call into this one: %s' % (d['name'], why)))
     return res
+
+
+def member_cache_protocol(prog, cls, query, field_reads, field_writes):
+    """A query member `query` of class `cls` that writes fields of its own object keeps a cache in the object.  Returns None
+    when it writes none; otherwise (cache fields, problems): every member function (constructors apart) that can change a
+    field the query reads - by writing it, or by returning a mutable reference or pointer into it - must also write a cache
+    field (reset it); one that does not leaves a stale value behind."""
+    cache = sorted(field_writes(query))
+    if not cache:
+        return None
+    inputs = sorted(set(field_reads(query)) - set(cache))
+    problems = []
+    for f in prog.all_functions():
+        if f.cls != cls or f is query or f.d.get('ctor') or f.sig == query.sig:
+            continue
+        w = set(field_writes(f))
+        touched = sorted(w & set(inputs))
+        how = None
+        if '*this' in w:
+            touched, how = ['*this'], 'assigns the whole object'
+        elif touched:
+            how = 'writes %s' % ', '.join(touched)
+        elif f.d.get('retmut') and not f.d.get('const'):
+            # which field does the returned reference point into?
+            for s_ in walk_stmts(f.body) if f.body else []:
+                if s_['k'] == 'Return' and s_.get('e') is not None:
+                    t = strip(s_['e'])
+                    while t.get('k') == 'Index':
+                        t = strip(t['base'])
+                    if t.get('k') == 'Member' and strip(t['base']).get('k') == 'This' and t['name'] in inputs:
+                        how = 'hands out a mutable reference into %s' % t['name']
+        if how is None:
+            continue
+        if not (w & set(cache)) and '*this' not in w:
+            problems.append('%s %s without resetting the cached %s' % (f.sig.replace('libphysica::', ''), how, '/'.join(cache)))
+    return cache, problems
